@@ -473,6 +473,9 @@ def run(ctx):
     # a getter that resolves a coordinate per row returns cells of other columns, stamped with other coordinates (rule shared with C19)
     from .c19 import r19g
     r19g(ctx)
+    # a whole-row rewrite deletes the cells first: the wrappers filed for them must go with them, or the next getter answers with a deleted cell (position-map protocol, shared with C02)
+    from .c02 import r02ab
+    r02ab(ctx, tom)
 
 
 from ..selftest import Seed, unparse_seed  # noqa: E402
